@@ -22,7 +22,7 @@ def run_cases(drv, cases, wd, name, budget=10, maxpop=330, hz=(2098, 12, 31)):
         rest = len(cases) - start
         tmo = max(60, min(3600, rest * budget // 4 + 60))
         with open(of, 'w') as fo:
-            p = subprocess.Popen(['bash', '-c', f'ulimit -f 2000000; exec {drv} {budget}'], stdin=subprocess.PIPE, stdout=fo, stderr=subprocess.DEVNULL, text=True)
+            p = subprocess.Popen(['bash', '-c', f'ulimit -f 2000000; exec {drv} {budget}'], stdin=subprocess.PIPE, stdout=fo, stderr=open(of + '.err', 'w'), text=True)
             try:
                 p.communicate('\n'.join(lines[start:len(cases)]) + '\n', timeout=tmo)
                 rc = p.returncode
@@ -40,11 +40,19 @@ def run_cases(drv, cases, wd, name, budget=10, maxpop=330, hz=(2098, 12, 31)):
                 out[r['id']] = r
                 got = r['id'] + 1
         os.unlink(of)
+        rep = ''
+        try:
+            for l in open(of + '.err', errors='replace'):
+                if 'ERROR: AddressSanitizer' in l or 'runtime error' in l or 'SUMMARY:' in l:
+                    rep = (rep + ' | ' + l.strip())[:600]
+            os.unlink(of + '.err')
+        except Exception:
+            pass
         if got >= len(cases):
             break
         # the driver died on case `got` (abort / uncatchable / runaway): record it and go on behind it
         died = max(got, start)
-        out[died] = {'id': died, 'crash': rc}
+        out[died] = {'id': died, 'crash': rc, 'report': rep}
         start = died + 1
     recs = []
     for i, c in enumerate(cases):
